@@ -266,12 +266,15 @@ func (e *Exec) tryIfConvert(fr *frame, c *Term) (ok bool) {
 	defer func() {
 		if r := recover(); r != nil {
 			e.spec = 0
-			switch r.(type) {
+			switch rr := r.(type) {
 			case specAbort, targetPanic:
 				e.depth = depthAt
 				ok = false
 				fr.block = blk
 				e.res.IfConvAborted++
+				if sa, isSA := rr.(specAbort); isSA && e.P.Verbose {
+					e.note("if-conversion aborted in " + fr.fn.Name() + ": " + sa.why)
+				}
 			default:
 				panic(r)
 			}
